@@ -135,6 +135,15 @@ class Prop(PropBase):
                 y = pb.fast_len(z)
                 ok_data = bool(np.array_equal(np.asarray(y.data), np.arange(len(y))))
                 dt = abs((y.start_time - t0).to_value(u.s))
+                # the same on a Dask-backed signal whose time axis is split into several chunks
+                if L > 0:
+                    import dask.array as da
+                    zd = pb.Signal(da.from_array(np.arange(L, dtype=np.float64), chunks=(max(1, L // 3),)), sample_rate=1 * u.kHz,
+                                   start_time=t0)
+                    yd = pb.fast_len(zd)
+                    got = np.asarray(yd.data.compute())
+                    ok_data = ok_data and len(yd) == len(y) and got.shape == (len(y),) and bool(np.array_equal(got, np.arange(len(y)))) \
+                        and isinstance(yd.data, da.Array)
                 return {"len": len(y), "data_prefix": ok_data, "start_same": bool(dt < 1e-10),
                         "rate_same": bool(y.sample_rate == z.sample_rate)}
             except Exception as e:
